@@ -28,6 +28,14 @@ impl Tier {
 /// tier (quick tiers that run the thorough alphabet because it is cheap enough).
 pub static TIER_LABEL: std::sync::OnceLock<&'static str> = std::sync::OnceLock::new();
 
+/// Set when the thorough tier of a check was asked for whose quick tier already runs the thorough
+/// alphabet: the check then explores deeper still.
+pub static DEEP: std::sync::atomic::AtomicBool = std::sync::atomic::AtomicBool::new(false);
+
+pub fn deep() -> bool {
+    DEEP.load(std::sync::atomic::Ordering::Relaxed)
+}
+
 pub fn tier_label(t: Tier) -> &'static str {
     TIER_LABEL.get().copied().unwrap_or(t.name())
 }
@@ -209,7 +217,7 @@ impl Ctx {
         let ev = json!({
             "property_id": self.prop,
             "tier": tier_label(self.tier),
-            "alphabet_tier": self.tier.name(),
+            "alphabet_tier": if deep() { "deep" } else { self.tier.name() },
             "seed": self.seed,
             "level": level,
             "coverage": coverage,
